@@ -510,6 +510,37 @@ structure OktaExt where
   otp : Str → Nat → Bool × Option Err
   upgradeResult : Str → Nat → Str × Option Err
 
+/-! ### cmd/keymasterd `u2fTokenVerifierHandler`, the verification loops -/
+
+/-- `webauthAuthData` (the field the block reads) -/
+structure webauthAuthData where
+  Enabled : Bool
+  Name : Str
+deriving DecidableEq, Repr
+
+/-- effects: a refusal, the counter written into the in-memory profile at a key, the pending challenge consumed, audit
+events, the cookie raised, the success body -/
+inductive U2fEffect
+  | fail (status : Nat)
+  | setReg (reg : u2fAuthData)
+  | consume (user : Str)
+  | authEvent (user : Str)
+  | webLogin (user : Str)
+  | upgrade (user : Str) (level : Nat)
+  | success
+deriving DecidableEq, Repr
+
+/-- externals: the profile's U2F registrations and WebAuthn registrations as (key, value) lists in the order the maps
+happen to be ranged over, `Registration.Authenticate` of the sign response against the pending challenge (new counter
+or error), the WebAuthn→U2F conversion, whether the pending challenge was still there, the upgrade's result -/
+structure U2fExt where
+  regs : List (Nat × u2fAuthData)
+  waRegs : List (Nat × webauthAuthData)
+  authenticate : u2fAuthData → Nat × Option Err
+  toU2f : webauthAuthData → u2fAuthData × Option Err
+  consumeResult : Str → Bool
+  upgradeResult : Str → Nat → Str × Option Err
+
 /-! ### cmd/keymasterd `consumeLoginChallenge` -/
 
 /-- `localUserData`: the pending challenge of a user; the two challenge pointers are compared by identity (numbers
